@@ -259,7 +259,10 @@ impl Scenario for Append {
         if rng.chance(1, 8) {
             // damaged count prefix
             let mut b = Vec::new();
-            match rng.below(6) {
+            match rng.below(9) {
+                6 => b = vec![0x07, 0x05, 0x00, 0x00, 0x80, 0x01],
+                7 => b = vec![*rng.pick(&[0x07u8, 0x0b, 0x0f, 0x13, 0x33, 0xff]), rng.byte(), rng.byte(), rng.byte(), 0x40 | rng.byte(), rng.byte(), rng.byte()],
+                8 => b = vec![0x03, rng.byte(), rng.byte(), rng.byte(), rng.byte() & 0x3f],
                 0 => b = super::bytesgen::compact_variants(&mut rng, 5),
                 1 => b = vec![0xfd],
                 2 => b = vec![0x03, 0xff, 0xff],
